@@ -13,6 +13,10 @@ CLAIMED["C01"] = dict(level="exploration", ref="DESIGN.md section 4 C01",
    text="Seeded search over object graphs (swarm of value kinds, sizes, tricky names) x both stores x compression levels x modes x preconditions x I/O schedules: save under the simulated zarr loop, restart (expectation rebuilt from the JSON spec, freed memory poisoned, sampled loads in a process forked before the graph existed), load, exact structural comparison incl. attribute-name sets, second generation fixed point and zip-vs-dir agreement. Sampling, not enumeration: a clean run is evidence over the explored graphs/schedules only.",
    note="Trusts the structural comparison in qsim/graphs.py (exact dtype/shape/bytes, container kinds, attribute sets; numeric-value comparison only where the property allows it). Generator restrictions are listed in the evidence assumptions.",
    technique="deterministic simulation: seeded object-graph workloads under a virtual-time zarr loop with seeded I/O completion/listing order, restart-then-compare oracle, second-generation fixed point")
+CLAIMED["C14"] = dict(level="exploration", ref="DESIGN.md section 4 C14",
+   text="Seeded search over attribute-nested object graphs (names repeated across levels) x skip sets (present/absent names at any depth, lists of types incl. a base class) x stores x I/O schedules; six save/load histories (skip at save, at load, split, second generation, by type) are executed under the simulated zarr loop and each result is compared with a pruning reference model applied to the unskipped round trip; confluence save-skip == load-skip is checked pairwise.",
+   note="Trusts graphs.equal and the pruning model (attribute paths removed by name at every attribute-nested level; isinstance for types on the original values). Load-time type skipping and AutoSerialize objects inside containers are outside the property and not generated.",
+   technique="deterministic simulation: seeded save/load histories with skip lists under a virtual-time zarr loop, pruning reference model + confluence check")
 NA = {
  "C02": "single evaluation of a deterministic forward model at a known ground truth; no schedule, state, fault or persistence in the claim - a simulator would only be an input generator",
  "C06": "conservation laws of bin/fourier_resample/pad/crop as pure array->array maps (the operation-history aspect of the same methods is claimed under C03)",
@@ -25,7 +29,7 @@ NA = {
  "C17": "unwrapping is a deterministic function of field and mask; its merge order is fixed by the input, not by a scheduler",
  "C20": "range/monotonicity/inverse identities of stateless maps",
 }
-PENDING = {k: "claimed in DESIGN.md (section 4); its check is still under construction in this build session and therefore not yet registered" for k in ["C03","C04","C05","C09","C11","C14","C18","C19"]}
+PENDING = {k: "claimed in DESIGN.md (section 4); its check is still under construction in this build session and therefore not yet registered" for k in ["C03","C04","C05","C09","C11","C18","C19"]}
 
 def main():
     checks = []
